@@ -76,11 +76,31 @@ SPECS = [
     ("y ~ fn(x) + f", "a", "envB"),  # ... and B
     ("y ~ center(x) + f:g:center(x)", "a"),
     ("y ~ poly(d, 2) + x", "a"),
-    ("y ~ bs(x, knots=kn) + f", "a"),  # 'kn' is an array of the caller whose entries are not in increasing order  # degenerate training data for the transform (two distinct points, degree 2)  # full rank needs a helper term (g:center(x)) that holds a stateful transform
+    ("y ~ bs(x, knots=kn) + f", "a"),
+    ("y ~ f + x + (1|g)", "c"),  # more than a thousand rows: two frames whose factor columns start and end alike ...
+    ("y ~ f + x + (1|g)", "d"),  # ... but hold other levels in between  # 'kn' is an array of the caller whose entries are not in increasing order  # degenerate training data for the transform (two distinct points, degree 2)  # full rank needs a helper term (g:center(x)) that holds a stateful transform
 ]
 
 
+def frame_long(variant):
+    """1200 rows sorted by the factor: 'c' and 'd' start and end with the same levels but have other levels in between."""
+    lev = ["a", "b", "c", "d"] if variant == "c" else ["a", "b2", "c2", "c3", "d"]
+    n = 1200
+    f = sorted(lev[i % len(lev)] for i in range(n))
+    i = np.arange(n)
+    return pd.DataFrame({"y": np.round(np.sin(i) + 2, 3), "x": np.round(np.cos(i * 0.7) * 2 + 3, 3), "z": np.round(np.sin(i * 1.3) + 4, 3), "f": f,
+                         "g": sorted(["g1", "g2", "g3"][k % 3] for k in range(n)) if variant == "c" else sorted(["g1", "g2b", "g3"][k % 3] for k in range(n)),
+                         "xc": np.round(np.cos(i), 3), "d": (i % 2).astype(float)})
+
+
+_LONG = {}
+
+
 def base_frame(which):
+    if which in ("c", "d"):
+        if which not in _LONG:
+            _LONG[which] = frame_long(which)
+        return _LONG[which].copy()
     return frame_a() if which == "a" else frame_b()
 
 
